@@ -33,11 +33,27 @@ var passphrases = []string{
 	strings.Repeat("long-passphrase-", 64),
 }
 
-func pass(id int) string {
-	if id < 0 || id >= len(passphrases) {
+// second table: five DIFFERENT passphrases that agree on their first 84 bytes (a long sentence and
+// variations of its tail): whatever protects a key must depend on the whole passphrase
+const passPrefix = "correct horse battery staple orbit lantern velvet canyon marble thunder quiet river "
+
+var passphrasesSharedPrefix = []string{
+	passPrefix,
+	passPrefix + "x",
+	passPrefix + "y",
+	passPrefix + "x ",
+	passPrefix + strings.Repeat("z", 200),
+}
+
+func (w *kbWorld) pass(id int) string {
+	t := passphrases
+	if w.salt%2 == 1 {
+		t = passphrasesSharedPrefix
+	}
+	if id < 0 || id >= len(t) {
 		hx.Fatal("passphrase id %d unknown", id)
 	}
-	return passphrases[id]
+	return t[id]
 }
 
 type slot struct {
@@ -215,7 +231,7 @@ func (w *kbWorld) exec(s hx.Step) (ret []int, list []int, fail string) {
 	mut := false
 	switch s.Str("op") {
 	case "Create":
-		kp, err := w.kb.Create(pass(s.Int("p")))
+		kp, err := w.kb.Create(w.pass(s.Int("p")))
 		if err == nil {
 			if _, dup := w.slots[k]; dup {
 				return nil, nil, "Create into a bound slot (driver error)"
@@ -228,13 +244,13 @@ func (w *kbWorld) exec(s hx.Step) (ret []int, list []int, fail string) {
 		ret, mut = []int{b2i(err == nil)}, true
 	case "ImportObj":
 		sl := w.importable(k)
-		kp, err := w.kb.ImportPrivateKeyObject(*sl.raw, pass(s.Int("p")))
+		kp, err := w.kb.ImportPrivateKeyObject(*sl.raw, w.pass(s.Int("p")))
 		if err == nil && !bytes.Equal(kp.GetAddress(), sl.addr) {
 			return nil, nil, "ImportPrivateKeyObject returned another address"
 		}
 		ret, mut = []int{b2i(err == nil)}, true
 	case "Export":
-		armor, err := w.kb.ExportPrivKeyEncryptedArmor(w.addrOf(k), pass(s.Int("dp")), pass(s.Int("ep")), fmt.Sprintf("hint-%d", len(w.armors)))
+		armor, err := w.kb.ExportPrivKeyEncryptedArmor(w.addrOf(k), w.pass(s.Int("dp")), w.pass(s.Int("ep")), fmt.Sprintf("hint-%d", len(w.armors)))
 		if err == nil {
 			w.armors = append(w.armors, armor)
 		}
@@ -244,7 +260,7 @@ func (w *kbWorld) exec(s hx.Step) (ret []int, list []int, fail string) {
 		if a < 1 || a > len(w.armors) {
 			return nil, nil, fmt.Sprintf("armor %d does not exist (driver error)", a)
 		}
-		kp, err := w.kb.ImportPrivKey(w.armors[a-1], pass(s.Int("dp")), pass(s.Int("ep")))
+		kp, err := w.kb.ImportPrivKey(w.armors[a-1], w.pass(s.Int("dp")), w.pass(s.Int("ep")))
 		if err == nil {
 			found := false
 			for _, sl := range w.slots {
@@ -258,13 +274,13 @@ func (w *kbWorld) exec(s hx.Step) (ret []int, list []int, fail string) {
 		}
 		ret, mut = []int{b2i(err == nil)}, true
 	case "Delete":
-		err := w.kb.Delete(w.addrOf(k), pass(s.Int("p")))
+		err := w.kb.Delete(w.addrOf(k), w.pass(s.Int("p")))
 		ret, mut = []int{b2i(err == nil)}, true
 	case "UnsafeDelete":
 		err := w.kb.UnsafeDelete(w.addrOf(k))
 		ret, mut = []int{b2i(err == nil)}, true
 	case "Update":
-		err := w.kb.Update(w.addrOf(k), pass(s.Int("o")), pass(s.Int("n")))
+		err := w.kb.Update(w.addrOf(k), w.pass(s.Int("o")), w.pass(s.Int("n")))
 		ret, mut = []int{b2i(err == nil)}, true
 	case "Get":
 		kp, err := w.kb.Get(w.addrOf(k))
@@ -283,7 +299,7 @@ func (w *kbWorld) exec(s hx.Step) (ret []int, list []int, fail string) {
 		ret = ids
 	case "Sign":
 		msg := seededBytes(w.rng, 1+w.rng.Intn(200))
-		sig, pub, err := w.kb.Sign(w.addrOf(k), pass(s.Int("p")), msg)
+		sig, pub, err := w.kb.Sign(w.addrOf(k), w.pass(s.Int("p")), msg)
 		if err != nil {
 			ret = []int{0}
 			break
@@ -296,7 +312,7 @@ func (w *kbWorld) exec(s hx.Step) (ret []int, list []int, fail string) {
 			ret = []int{1}
 		}
 	case "ExportObj":
-		priv, err := w.kb.ExportPrivateKeyObject(w.addrOf(k), pass(s.Int("p")))
+		priv, err := w.kb.ExportPrivateKeyObject(w.addrOf(k), w.pass(s.Int("p")))
 		if err != nil {
 			ret = []int{0}
 		} else {
@@ -307,7 +323,7 @@ func (w *kbWorld) exec(s hx.Step) (ret []int, list []int, fail string) {
 		if a < 1 || a > len(w.armors) {
 			return nil, nil, fmt.Sprintf("armor %d does not exist (driver error)", a)
 		}
-		priv, err := mintkey.UnarmorDecryptPrivKey(mutateArmor(w.armors[a-1], s.Str("site")), pass(s.Int("p")))
+		priv, err := mintkey.UnarmorDecryptPrivKey(mutateArmor(w.armors[a-1], s.Str("site")), w.pass(s.Int("p")))
 		if err != nil {
 			ret = []int{0}
 		} else {
@@ -357,7 +373,7 @@ func (w *kbWorld) probeStore(st []int, npass int) (what string, want, got interf
 			if p == q {
 				exp = k
 			}
-			priv, err := w.kb.ExportPrivateKeyObject(w.addrOf(k), pass(q))
+			priv, err := w.kb.ExportPrivateKeyObject(w.addrOf(k), w.pass(q))
 			g := 0
 			if err == nil {
 				g = w.identify(priv)
